@@ -56,6 +56,9 @@ FAULT_NAME = {"bto": "recv-body-timeout", "rto": "recv-timeout", "rst": "recv-re
               "oth": "recv-tls-error", "tls": "handshake-error", "cref": "connect-refused",
               "cto": "connect-timeout"}
 RETRY_AFTER_STATUSES = (413, 429, 503)  # from the property statement
+# read-phase failures after which http.client / HTTPResponse close the connection object *before* the pool
+# classifies the error (structural key of known finding F-C04-a; never used by the oracle itself)
+CLOSED_FIRST = frozenset(["recv-reset", "recv-eof", "recv-body-timeout"])
 
 POOLS = ("direct", "forwarding-proxy", "tunnelling-proxy")
 DEST = {"direct": "http://a.test/x", "forwarding-proxy": "http://a.test/x", "tunnelling-proxy": "https://a.test/x"}
@@ -435,7 +438,10 @@ def judge(case, obs):
             # `fault`: the kinds of outcome charged against that budget (the ledger cannot know which of
             # them the implementation filed elsewhere), e.g. "recv-reset" or "recv-reset+recv-timeout"
             V.append(("budget-exceeded", {"budget": ob, "pool": pool,
-                                          "fault": "+".join(sorted(set(charged_to[ob])))},
+                                          "fault": "+".join(sorted(set(charged_to[ob]))),
+                                          # did one of the charged attempts end with the client closing the
+                                          # connection object before the pool classified the error?
+                                          "closed_before_classified": bool(set(charged_to[ob]) & CLOSED_FIRST)},
                       {"attempts": [x["what"] for x in att], "retried_after_attempt": i, "overdrawn": over},
                       "no further attempt once a budget is used up"))
             break
